@@ -83,11 +83,13 @@ def main():
         if not inplace:
             sh(["git", "-C", "/repo", "worktree", "remove", "--force", wt])
             shutil.rmtree(wt, ignore_errors=True)
+            import hashlib
+            tag = "-alt-" + hashlib.sha1(wt.encode()).hexdigest()[:8]   # the tag ./check derives from VERIF_REPO
             for p in os.listdir(os.path.join(ROOT, "bin")):
-                if "-alt-" in p and p.lower().startswith(pid.lower()):
+                if p.endswith(tag) and p.lower().startswith(pid.lower()):
                     os.remove(os.path.join(ROOT, "bin", p))
             for p in os.listdir(os.path.join(ROOT, "runs")):
-                if "-alt-" in p and p.lower().startswith(pid.lower()):
+                if tag in p and (p.lower().startswith(pid.lower()) or p.startswith("harness")):
                     shutil.rmtree(os.path.join(ROOT, "runs", p), ignore_errors=True)
         res["wall_s"] = round(time.time() - t0, 1)
         json.dump(res, open(os.path.join(d, "result.json"), "w"), indent=1)
